@@ -8,6 +8,8 @@ import (
 	"bytes"
 	"context"
 	"crypto/ed25519"
+	"encoding/binary"
+	"errors"
 	"math/rand"
 	"testing"
 	"time"
@@ -77,8 +79,59 @@ func (e *countingExec) SetFinal(ctx context.Context, h uint64) error {
 	return e.DummyExecutor.SetFinal(ctx, h)
 }
 
+// heightDA is the DA layer of the node under test: the reference DummyDA for everything the harness does not
+// use, with the two read methods of the retriever (GetIDs, Get) served from the DA heights the harness
+// publishes. It records every Get call as (index of the first id, number of ids).
+type heightDA struct {
+	coreda.DA
+	heights map[uint64][][]byte
+	gets    map[uint64][][2]int
+}
+
+func newHeightDA() *heightDA {
+	return &heightDA{DA: coreda.NewDummyDA(1<<20, 0, 0, time.Second), heights: map[uint64][][]byte{}, gets: map[uint64][][2]int{}}
+}
+
+func daID(h uint64, i int) []byte {
+	b := make([]byte, 12)
+	binary.BigEndian.PutUint64(b, h)
+	binary.BigEndian.PutUint32(b[8:], uint32(i))
+	return b
+}
+
+func (d *heightDA) GetIDs(ctx context.Context, h uint64, ns []byte) (*coreda.GetIDsResult, error) {
+	blobs, ok := d.heights[h]
+	if !ok {
+		return nil, coreda.ErrHeightFromFuture
+	}
+	ids := make([][]byte, len(blobs))
+	for i := range ids {
+		ids[i] = daID(h, i)
+	}
+	return &coreda.GetIDsResult{IDs: ids, Timestamp: time.Now()}, nil
+}
+
+func (d *heightDA) Get(ctx context.Context, ids []coreda.ID, ns []byte) ([]coreda.Blob, error) {
+	if len(ids) == 0 {
+		return nil, errors.New("no ids")
+	}
+	h := binary.BigEndian.Uint64(ids[0])
+	off := int(binary.BigEndian.Uint32(ids[0][8:]))
+	d.gets[h] = append(d.gets[h], [2]int{off, len(ids)})
+	out := make([][]byte, 0, len(ids))
+	for _, id := range ids {
+		i := int(binary.BigEndian.Uint32(id[8:]))
+		if len(id) != 12 || binary.BigEndian.Uint64(id) != h || i >= len(d.heights[h]) {
+			return nil, coreda.ErrBlobNotFound
+		}
+		out = append(out, d.heights[h][i])
+	}
+	return out, nil
+}
+
 type nodeParts struct {
 	m      *block.Manager
+	da     *heightDA
 	st     store.Store
 	exec   *countingExec
 	seq    *coreseq.DummySequencer
@@ -120,7 +173,8 @@ func newNode(t testing.TB, ctx context.Context, sg signer.Signer, gen genesis.Ge
 	p.seq = coreseq.NewDummySequencer()
 	p.hstore, p.dstore = newGoHeaderStores(t, ctx)
 	p.hb, p.db = &nopBroadcaster[*types.SignedHeader]{}, &nopBroadcaster[*types.Data]{}
-	da := coreda.NewDummyDA(1<<20, 0, 0, time.Second)
+	da := newHeightDA()
+	p.da = da
 	lg := logging.Logger("c03")
 	_ = logging.SetLogLevel("c03", "FATAL")
 	m, err := block.NewManager(ctx, sg, cfg, gen, p.st, p.exec, p.seq, da, lg, p.hstore, p.dstore, p.hb, p.db,
